@@ -39,7 +39,7 @@ func (k *zzKV) Put(ctx context.Context, key ds.Key, value []byte) error {
 	k.m[key.String()] = append([]byte(nil), value...)
 	return nil
 }
-func (k *zzKV) Delete(ctx context.Context, key ds.Key) error { delete(k.m, key.String()); return nil }
+func (k *zzKV) Delete(ctx context.Context, key ds.Key) error  { delete(k.m, key.String()); return nil }
 func (k *zzKV) Sync(ctx context.Context, prefix ds.Key) error { return nil }
 func (k *zzKV) Close() error                                  { return nil }
 func (k *zzKV) Batch(ctx context.Context) (ds.Batch, error) {
